@@ -820,7 +820,7 @@ theorem Diagram_routed {p : Proc N} {prog : List (Instr N)} (hwf : wfProc p = tr
   obtain ⟨E, h0, hle, hstep, hdone⟩ := Diagram_route hwf h
   exact ⟨E, wfProc_nodup_names hwf, wfProc_orderOK hwf, h0, hle, hstep, hdone⟩
 
-omit [DecidableRel (α := N) (· < ·)] in
+omit [LT N] [DecidableRel (α := N) (· < ·)] in
 /-- the table recorded so far by a state satisfying `RouteInv` is routed (read as a stall diagram), with
 `E (number of rows) = entered` -/
 theorem RouteInv.routed {p : Proc N} {prog : List (Instr N)} (hwf : wfProc p = true) {s : SimState N}
